@@ -657,5 +657,247 @@ theorem hpLocalhostOf_text_ok {t : Bytes} {recs : List HostsRecord}
     hpLocalhostOf (.text t) = .ok (hpLocalhost (localhostAliases recs)) := by
   simp only [hpLocalhostOf, hpLocalhostOfWith, decodeHostsWith, h]
 
+/-! ## §7 the two serving paths: where the URL host is completed (`Model/C04.lean` `Completion`) -/
+
+theorem securityCheck_congr (cfg : Cfg) {g g' : GoReq} (hh : g.header = g'.header) (hu : g.urlHost = g'.urlHost) :
+    securityCheck cfg g = securityCheck cfg g' := by
+  rw [securityCheck_eq_firstFailing, securityCheck_eq_firstFailing, hh, hu]
+
+theorem fails_pastControls_time (cfg : Cfg) (hn pa : Bytes) :
+    Control.fails (pastControls cfg) hn pa .timeFrame = Control.fails cfg hn pa .timeFrame := rfl
+theorem fails_pastControls_auth (cfg : Cfg) (hn pa : Bytes) :
+    Control.fails (pastControls cfg) hn pa .basicAuth = Control.fails cfg hn pa .basicAuth := rfl
+theorem fails_pastControls_local (cfg : Cfg) (hn pa : Bytes) :
+    Control.fails (pastControls cfg) hn pa .localhost = false := rfl
+theorem fails_pastControls_deny (cfg : Cfg) (hn pa : Bytes) :
+    Control.fails (pastControls cfg) hn pa .denyDomains = false := by
+  simp [Control.fails, pastControls, domMatch]
+
+theorem firstFailing_none_iff (cfg : Cfg) (hn pa : Bytes) :
+    firstFailing cfg hn pa = none ↔ ∀ c, Control.fails cfg hn pa c = false := by
+  unfold firstFailing
+  rw [List.find?_eq_none]
+  constructor
+  · intro h c
+    have := h c (by cases c <;> simp [order])
+    simpa using this
+  · intro h c _
+    simp [h c]
+
+/-- the time-frame and credentials checks do not look at the host: once the controls passed on SOME host,
+    the stack behind them (`pastControls`) passes on every host -/
+theorem firstFailing_pastControls {cfg : Cfg} {hn pa : Bytes} (h : firstFailing cfg hn pa = none) (hn' : Bytes) :
+    firstFailing (pastControls cfg) hn' pa = none := by
+  rw [firstFailing_none_iff] at h ⊢
+  intro c
+  cases c with
+  | timeFrame => rw [fails_pastControls_time]; exact h .timeFrame
+  | basicAuth => rw [fails_pastControls_auth]; exact h .basicAuth
+  | localhost => exact fails_pastControls_local cfg hn' pa
+  | denyDomains => exact fails_pastControls_deny cfg hn' pa
+
+theorem securityCheck_pastControls {cfg : Cfg} {g g' : GoReq} (hh : g'.header = g.header)
+    (h : securityCheck cfg g = none) : securityCheck (pastControls cfg) g' = none := by
+  rw [securityCheck_eq_firstFailing] at h ⊢
+  rw [hh]
+  cases hf : firstFailing cfg (hostname g.urlHost) (goGet g.header (bs "Proxy-Authorization")) with
+  | some c => rw [hf] at h; cases h
+  | none => rw [firstFailing_pastControls hf]; rfl
+
+theorem viaStep_pastControls (cfg : Cfg) (m : Nat) (h : HMap) : viaStep (pastControls cfg) m h = viaStep cfg m h := rfl
+theorem pastControls_rules (cfg : Cfg) : (pastControls cfg).rules = cfg.rules := rfl
+theorem pastControls_siteCred (cfg : Cfg) : (pastControls cfg).siteCred = cfg.siteCred := rfl
+theorem pastControls_upstream (cfg : Cfg) : (pastControls cfg).upstream = cfg.upstream := rfl
+theorem pastControls_connectRules (cfg : Cfg) : (pastControls cfg).connectRules = cfg.connectRules := rfl
+
+/-- the request pipeline is: read, complete the URL host, the four controls, then the rest of the stack -/
+theorem processRequest_split (cfg : Cfg) (ctx : Ctx) (r : Request) :
+    processRequest cfg ctx r =
+      match readRequest r with
+      | .error _ => .unreadable
+      | .ok g0 =>
+        match securityCheck cfg { g0 with urlHost := effectiveHost g0 } with
+        | some why => .refused why.status why
+        | none => processRequest (pastControls cfg) ctx r := by
+  cases hr : readRequest r with
+  | error e => unfold processRequest; rw [hr]
+  | ok g0 =>
+    simp only []
+    cases hs : securityCheck cfg { g0 with urlHost := effectiveHost g0 } with
+    | some why =>
+      unfold processRequest
+      rw [hr]
+      simp only [securityCheck_eq_firstFailing, effectiveHost] at hs ⊢
+      rw [hs]
+    | none =>
+      simp only []
+      unfold processRequest
+      rw [hr]
+      simp only [securityCheck_eq_firstFailing, effectiveHost] at hs ⊢
+      cases hf : firstFailing cfg (hostname (if g0.urlHost.isEmpty = true then g0.host else g0.urlHost))
+          (goGet g0.header (bs "Proxy-Authorization")) with
+      | some c => rw [hf] at hs; cases hs
+      | none =>
+        rw [firstFailing_pastControls hf]
+        simp only [Option.map_none, viaStep_pastControls, pastControls_rules, pastControls_siteCred, pastControls_upstream]
+        split
+        · rfl
+        · split
+          · rfl
+          · split <;> rfl
+
+
+theorem requestActions_pastControls {cfg : Cfg} {ctx : Ctx} {r : Request}
+    (h : processRequest cfg ctx r = processRequest (pastControls cfg) ctx r) :
+    requestActions (pastControls cfg) ctx r = requestActions cfg ctx r := by
+  unfold requestActions
+  rw [← h]
+  rfl
+
+theorem requestView_of_read {r : Request} {g0 : GoReq} (hr : readRequest r = .ok g0) :
+    requestView r = some (hostname (effectiveHost g0), goGet g0.header (bs "Proxy-Authorization")) := by
+  unfold requestView effectiveHost
+  rw [hr]
+
+theorem securityCheck_effective (cfg : Cfg) (g0 : GoReq) :
+    securityCheck cfg { g0 with urlHost := effectiveHost g0 } =
+      (firstFailing cfg (hostname (effectiveHost g0)) (goGet g0.header (bs "Proxy-Authorization"))).map Control.refusal :=
+  securityCheck_eq_firstFailing cfg _
+
+/-- a pipeline whose controls see, and whose round trip uses, the effective target is the validated pipeline -/
+theorem processRequestAt_eq {k : Completion} {cfg : Cfg} {ctx : Ctx} {r : Request} {g0 : GoReq}
+    (hr : readRequest r = .ok g0) (hs : k.seenHost g0 = effectiveHost g0) (ht : k.tripHost g0 = effectiveHost g0)
+    (hne : (effectiveHost g0).isEmpty = false) :
+    processRequestAt k cfg ctx r = .served (processRequest cfg ctx r) ∧
+      requestActionsAt k cfg ctx r = requestActions cfg ctx r := by
+  have hsplit := processRequest_split cfg ctx r
+  rw [hr] at hsplit
+  simp only [] at hsplit
+  unfold requestActionsAt
+  unfold processRequestAt
+  rw [hr]
+  simp only [hs, ht, hne]
+  cases hc : securityCheck cfg { g0 with urlHost := effectiveHost g0 } with
+  | some why =>
+    rw [hc] at hsplit
+    simp only [] at hsplit
+    simp only [hsplit, true_and]
+    unfold requestActions
+    rw [hsplit]
+  | none =>
+    rw [hc] at hsplit
+    simp only [] at hsplit
+    simp only [Bool.false_eq_true, if_false, ← hsplit, true_and]
+    cases ho : processRequest cfg ctx r with
+    | forwarded hop out => simp only []; exact requestActions_pastControls hsplit
+    | refused st w => simp only []; unfold requestActions; rw [ho]
+    | badRequest => simp only []; unfold requestActions; rw [ho]
+    | unreadable => simp only []; unfold requestActions; rw [ho]
+    | routeError => simp only []; unfold requestActions; rw [ho]
+
+
+/-- on both serving paths the URL host the controls see is the URL host of the round trip -/
+theorem seen_eq_trip (v : ServerVariant) (g0 : GoReq) : v.completion.seenHost g0 = v.completion.tripHost g0 := by
+  cases v <;> rfl
+
+/-- … and when that host is not empty it is the effective target -/
+theorem trip_eq_effective (v : ServerVariant) (g0 : GoReq) (h : (v.completion.tripHost g0).isEmpty = false) :
+    v.completion.tripHost g0 = effectiveHost g0 := by
+  cases v with
+  | connLoop => rfl
+  | handler =>
+    simp only [ServerVariant.completion, Completion.tripHost] at h ⊢
+    unfold effectiveHost
+    rw [h]; rfl
+
+/-- what a pipeline ends in when something is dialled: read, the controls passed on the seen host, the trip
+    host is not empty -/
+theorem requestActionsAt_ne_nil {k : Completion} {cfg : Cfg} {ctx : Ctx} {r : Request}
+    (h : requestActionsAt k cfg ctx r ≠ []) :
+    ∃ g0, readRequest r = .ok g0 ∧ securityCheck cfg { g0 with urlHost := k.seenHost g0 } = none ∧
+      (k.tripHost g0).isEmpty = false := by
+  unfold requestActionsAt processRequestAt at h
+  cases hr : readRequest r with
+  | error e => rw [hr] at h; simp at h
+  | ok g0 =>
+    rw [hr] at h
+    simp only [] at h
+    cases hs : securityCheck cfg { g0 with urlHost := k.seenHost g0 } with
+    | some why => rw [hs] at h; simp at h
+    | none =>
+      rw [hs] at h
+      simp only [] at h
+      cases he : (k.tripHost g0).isEmpty with
+      | false => exact ⟨g0, rfl, hs, he⟩
+      | true =>
+        rw [he] at h
+        simp only [if_true] at h
+        cases ho : processRequest (pastControls cfg) ctx r <;> rw [ho] at h <;> simp at h
+
+theorem firstFailing_connectCfg (v : ServerVariant) (cfg : Cfg) (hn pa : Bytes) :
+    firstFailing (connectCfg v cfg) hn pa = firstFailing cfg hn pa := by
+  cases v <;> rfl
+
+theorem connectActions_ne_nil {cfg : Cfg} {ctx : Ctx} {q : ConnectReq} (h : connectActions cfg ctx q ≠ []) :
+    ∃ hn pa, connectView q = some (hn, pa) ∧ firstFailing cfg hn pa = none := by
+  cases hv : connectView q with
+  | none =>
+    exfalso; apply h
+    unfold connectView at hv
+    unfold connectActions processConnect
+    cases hr : readRequest q.asRequest with
+    | error e => rfl
+    | ok g0 => rw [hr] at hv; simp at hv
+  | some v =>
+    obtain ⟨hn, pa⟩ := v
+    refine ⟨hn, pa, rfl, ?_⟩
+    cases hf : firstFailing cfg hn pa with
+    | none => rfl
+    | some c =>
+      exfalso; apply h
+      unfold connectActions
+      rw [processConnect_of_failing (ctx := ctx) hv hf]
+
+
+theorem read_of_requestView {r : Request} {hn pa : Bytes} (hv : requestView r = some (hn, pa)) :
+    ∃ g0, readRequest r = .ok g0 ∧ hn = hostname (effectiveHost g0) ∧ pa = goGet g0.header (bs "Proxy-Authorization") := by
+  unfold requestView at hv
+  cases hr : readRequest r with
+  | error e => rw [hr] at hv; simp at hv
+  | ok g0 =>
+    rw [hr] at hv
+    simp only [Option.some.injEq, Prod.mk.injEq] at hv
+    exact ⟨g0, rfl, hv.1.symm, hv.2.symm⟩
+
+/-- a request whose effective target fails a control ends, on either serving path, in a refusal or an error
+    response of the proxy -/
+theorem processRequestV_of_failing (v : ServerVariant) {cfg : Cfg} (ctx : Ctx) {r : Request} {hn pa : Bytes} {c : Control}
+    (hv : requestView r = some (hn, pa)) (hf : firstFailing cfg hn pa = some c) :
+    (processRequestV v cfg ctx r).refusedOrError = true := by
+  unfold processRequestV
+  split
+  · rfl
+  · obtain ⟨g0, hr, hhn, hpa⟩ := read_of_requestView hv
+    unfold processRequestAt
+    rw [hr]
+    simp only []
+    cases hs : securityCheck cfg { g0 with urlHost := v.completion.seenHost g0 } with
+    | some why => rfl
+    | none =>
+      simp only []
+      cases he : (v.completion.tripHost g0).isEmpty with
+      | false =>
+        exfalso
+        rw [seen_eq_trip, trip_eq_effective v g0 he, securityCheck_effective, ← hhn, ← hpa, hf] at hs
+        cases hs
+      | true =>
+        simp only [if_true]
+        rw [securityCheck_eq_firstFailing] at hs
+        have hp : firstFailing (pastControls cfg) hn pa = none := by
+          cases hff : firstFailing cfg (hostname (v.completion.seenHost g0)) (goGet g0.header (bs "Proxy-Authorization")) with
+          | some c' => simp only [hff] at hs; cases hs
+          | none => rw [hpa]; exact firstFailing_pastControls hff hn
+        rcases processRequest_of_passing (ctx := ctx) hv hp with h | h | h | ⟨hop, out, h⟩ <;> rw [h] <;> rfl
+
 end C04
 end FwdVerif
